@@ -126,3 +126,63 @@ def explore(run, binp, n):
     run.oblige("corr:L1 Model.HostKernels = is_ipv4 / parse_ipv4 / parse_ipv6 / serializers on every call", not bad,
                "; ".join(f"{l.split()[0]} {[lib.unhx(x) if l.split()[0] in ('pipv4', 'pipv6', 'isipv4') else x for x in l.split()[1:]]}: "
                          f"implementation {r}, model {m}" for l, r, m in bad[:4]))
+
+
+def explore_idna_assumption(run, binp, n):
+    """The parser / host theorems take ada::idna::to_ascii as a parameter and assume `IdnaAt` of it (Lemmas/HostParse.lean): its
+    answers are ASCII without upper-case letters, and an all-ASCII domain with no label starting with "xn--" (any letter case)
+    is answered by its lower-case form.  Here the real function is asked: generated ASCII strings over all 128 bytes (controls,
+    dots, empty labels, '%', spaces included), near-ACE spellings, and non-ASCII domains for the first two clauses.  The known
+    exception is the 16384-byte input cap (a known finding of C01/C06), below which the generator stays."""
+    rng = run.rng
+    doms = [b"a..b", b".", b"..", b"A.B.", b"xN--a", b"a.XN--b", b"xn-a", b"axn--b", b"a b", b"a%b", b"\x00", b"a\x7fb", b"-a-", b"a" * 300,
+            (b"a" * 63 + b".") * 10, b"EXAMPLE.COM", b"a_b", b"[::1]", b"a:b", b"a/b", b"1.2.3.4", b"0X7F.1", "é.com".encode(),
+            "É.COM".encode(), "ß".encode(), "a­b".encode(), "ａ.com".encode(), b"xn--bcher-kva", b"XN--BCHER-KVA.example"]
+    ascii_all = bytes(range(128))
+    for _ in range(n):
+        r = rng.random()
+        k = rng.choice([1, 2, 3, 5, 8, 13, 30, 70])
+        if r < 0.45:
+            d = bytes(rng.choice(ascii_all) for _ in range(k))
+        elif r < 0.6:
+            # labels over a mixed alphabet: letters that change under mapping, marks, joiners, full-width forms, other scripts
+            cps = "aAzZ09-_éÉßΣσςıİ­‌‍́٣אا日本ａＡ．。⒈😀"
+            d = ".".join("".join(rng.choice(cps) for _ in range(rng.randrange(1, 7))) for _ in range(rng.randrange(1, 4))).encode()
+        elif r < 0.7:
+            d = b".".join((rng.choice([b"xn--", b"XN--", b"xN--", b"xn-", b"xn"]) if rng.random() < 0.7 else b"") +
+                          bytes(rng.choice(b"abcdefghijklmnopqrstuvwxyz0123456789-") for _ in range(rng.randrange(0, 9)))
+                          for _ in range(rng.randrange(1, 4)))
+        elif r < 0.85:
+            d = genlib.gen_host(rng)
+        else:
+            d = b".".join(genlib.gen_label(rng) for _ in range(rng.randrange(1, 5)))
+            if rng.random() < 0.3:
+                d = genlib.case_mix(rng, d)
+        if d:
+            doms.append(d)
+    doms = sorted(set(doms))
+    outs, crash = lib.run_lines(binp, [f"idna_to_ascii {hx(d)}" for d in doms], timeout=600)
+    if crash:
+        idx = min(crash.get("answered", 0), len(doms) - 1)
+        run.violation("crash:idna_to_ascii " + hx(doms[idx]), "ada::idna::to_ascii crashed/aborted", lines=[f"idna_to_ascii {hx(doms[idx])}"], detail=crash)
+        return
+    bad, stat = [], {"ascii_without_ace": 0, "ascii_with_ace": 0, "non_ascii": 0, "failed": 0}
+    for d, o in zip(doms, outs):
+        run.count()
+        res = None if o == "!" else (b"" if o == "-" else lib.unhx(o))
+        is_ascii = all(c < 128 for c in d)
+        ace = any(l[:4].lower() == b"xn--" for l in d.split(b"."))
+        stat["non_ascii" if not is_ascii else "ascii_with_ace" if ace else "ascii_without_ace"] += 1
+        if res is None:
+            stat["failed"] += 1
+        else:
+            if any(c >= 128 for c in res) or any(65 <= c <= 90 for c in res):
+                bad.append((d, res, "the answer is not lower-case ASCII"))
+        if is_ascii and not ace:
+            run.nontriv(d)
+            if res != d.lower():
+                bad.append((d, res, "an all-ASCII domain without an ACE label is not answered by its lower-case form"))
+    run.extra["idna_assumption_domains"] = len(doms)
+    run.extra["idna_assumption_classes"] = stat
+    run.oblige("corr:the IdnaAt assumption of the parser / host theorems holds of the real ada::idna::to_ascii on every generated domain",
+               not bad, "; ".join(f"to_ascii({d!r}) = {r!r}: {why}" for d, r, why in bad[:4]))
